@@ -62,6 +62,8 @@ def _oth_templates():
         ("STORAGE", "WiredTiger message", {"message": {"ts_sec": 1748598459, "ts_usec": 1201, "thread": "1:0x7f", "msg": "checkpoint \"x\" \\ done"},
                                             "big": 18446744073709551615, "exp": "1E5", "arr": [[{"k": 1}], [], None]}),
         ("REPL", "Slow query", {"type": "none", "ns": "local.oplog.rs", "durationMillis": 100}),
+        # kept strings holding what another serialiser's escapes look like when they are data (backslash + u003c ...), '%' verbs, a lone backslash at the end
+        ("ACCESS", "Successfully authenticated", {"client": "10.0.0.9:1", "doc": "{\"a\":\"x\\u003cb\\u003e\\u0026\"}", "note": "100%s %d%% \\u0026 \\", "<tag>": "a<b>&c"}),
     ]
 
 
